@@ -99,6 +99,23 @@ Definition chk_c06 (c : feed_case) : bool * bool :=
    then no_exc xs && list_eqb delivery_eqb (all_ds xs) (ref_deliveries k cf frames)
    else true).
 
+(* exception responses are valid messages of the response direction BY SPECIFICATION (function code
+   of the refused request + 0x80, one exception code byte) whether or not the library implements
+   the refused function: for streams made of them the property does not depend on what the
+   decoder says — they must be delivered *)
+Definition exc_rsp_pdu (p : bytes) : bool :=
+  match p with
+  | [fc; code] => (129 <=? fc)%N && (fc <? 256)%N && (1 <=? code)%N && (code <? 256)%N
+  | _ => false
+  end.
+
+Definition chk_c06x (c : feed_case) : bool * bool :=
+  let '(k, cf, t, frames, chunks, xs) := c in
+  (m_feed_ok (dec_of t) cf (m_init k) chunks xs,
+   if bytes_eqb (concat chunks) (flat_map (spec_adu k) frames) && forallb (fun f => exc_rsp_pdu (f_pdu f)) frames
+   then no_exc xs && list_eqb delivery_eqb (all_ds xs) (ref_deliveries k cf frames)
+   else true).
+
 (* ---- C07: arbitrary (corrupted) input; every delivery must be justified by the bytes given so far
    (and, on TCP, carry a PDU of the length its function code defines; server = request direction) *)
 Definition corrupt_case := (kind * bool * cfg * dtable * list bytes * list obs)%type.
